@@ -267,3 +267,58 @@ package profile
 //@       ==> exists k int :: 0 <= k && k < len(samples) && samples[k] == old(p.Sample[i])
 //@     invariant fm <==> exists i int :: 0 <= i && i < $i && (focus == nil || focus(old(p.Sample[i])))
 //@     invariant im <==> exists i int :: 0 <= i && i < $i && ignore != nil && ignore(old(p.Sample[i]))
+
+// ---- C11: frame-dropping rules ----
+
+// wfprofile: the part of the validity contract the pruning code relies on.
+//@ spec func wfprofile(p *Profile) bool = p != nil
+//@     && (forall i int :: 0 <= i && i < len(p.Location) ==> p.Location[i] != nil)
+//@     && (forall i int :: 0 <= i && i < len(p.Sample) ==> p.Sample[i] != nil
+//@          && forall j int :: 0 <= j && j < len(p.Sample[i].Location) ==> p.Sample[i].Location[j] != nil)
+
+//@ func Profile.Prune
+//@   requires wfprofile(p) && dropRx != nil
+//@   ensures count: len(p.Sample) == old(len(p.Sample))
+//@   ensures nonempty: forall k int :: 0 <= k && k < len(p.Sample) && old(len(p.Sample[k].Location)) > 0 ==> len(p.Sample[k].Location) > 0
+//@   ensures shorter: forall k int :: 0 <= k && k < len(p.Sample) ==> len(p.Sample[k].Location) <= old(len(p.Sample[k].Location))
+//@   loop 1
+//@     invariant 0 <= $i && $i <= len(p.Location)
+//@     invariant forall k int :: 0 <= k && k < len(p.Location) ==> p.Location[k] != nil
+//@   loop 2
+//@     invariant -1 <= i && i < len(loc.Line)
+//@     decreases i + 1
+//@   loop 3
+//@     invariant 0 <= $i && $i <= len(p.Sample)
+//@     invariant forall k int :: 0 <= k && k < len(p.Sample) ==> p.Sample[k] != nil
+//@          && forall j int :: 0 <= j && j < len(p.Sample[k].Location) ==> p.Sample[k].Location[j] != nil
+//@     invariant forall k int :: 0 <= k && k < len(p.Sample) && old(len(p.Sample[k].Location)) > 0 ==> len(p.Sample[k].Location) > 0
+//@     invariant forall k int :: 0 <= k && k < len(p.Sample) ==> len(p.Sample[k].Location) <= old(len(p.Sample[k].Location))
+//@   loop 4
+//@     invariant -1 <= i && i < len(sample.Location)
+//@     invariant foundUser ==> i + 1 < len(sample.Location)
+//@     decreases i + 1
+
+//@ func Profile.PruneFrom
+//@   requires wfprofile(p) && dropRx != nil
+//@   ensures count: len(p.Sample) == old(len(p.Sample))
+//@   ensures nonempty: forall k int :: 0 <= k && k < len(p.Sample) && old(len(p.Sample[k].Location)) > 0 ==> len(p.Sample[k].Location) > 0
+//@   ensures shorter: forall k int :: 0 <= k && k < len(p.Sample) ==> len(p.Sample[k].Location) <= old(len(p.Sample[k].Location))
+//@   loop 1
+//@     invariant 0 <= $i && $i <= len(p.Location)
+//@     invariant forall k int :: 0 <= k && k < len(p.Location) ==> p.Location[k] != nil
+//@   loop 2
+//@     invariant 0 <= i && i <= len(loc.Line)
+//@     decreases len(loc.Line) - i
+//@   loop 3
+//@     invariant 0 <= $i && $i <= len(p.Sample)
+//@     invariant forall k int :: 0 <= k && k < len(p.Sample) ==> p.Sample[k] != nil
+//@          && forall j int :: 0 <= j && j < len(p.Sample[k].Location) ==> p.Sample[k].Location[j] != nil
+//@     invariant forall k int :: 0 <= k && k < len(p.Sample) && old(len(p.Sample[k].Location)) > 0 ==> len(p.Sample[k].Location) > 0
+//@     invariant forall k int :: 0 <= k && k < len(p.Sample) ==> len(p.Sample[k].Location) <= old(len(p.Sample[k].Location))
+//@   loop 4
+//@     invariant 0 <= $i && $i <= len(sample.Location)
+
+//@ func Profile.RemoveUninteresting
+//@   requires wfprofile(p)
+//@   ensures untouched: old(p.DropFrames) == "" ==> result == nil
+//@   ensures count: len(p.Sample) == old(len(p.Sample))
